@@ -106,6 +106,9 @@ META = dict(
     level_note="trusted: numpy, pvm.ref.recurrence",
 )
 
+META["rule"] += (
+    " " + 'Added after the second round of seeded changes: the series is handed over in the representation a caller may hold it in (Fortran order, strided view, read-only, float32 / int64 when exact; counters input_held_as:*), and about 1 % of the single-plot cases have 129 / 200 / 257 states.')
+
 HIST = ("diagline_dist", "vertline_dist", "white_vertline_dist")
 
 
